@@ -400,6 +400,7 @@ package deflate
 //@   requires[C01 tokens-ok] tokensOK(tokens)
 //@   modifies table[*], hist.literalCodes, hist.distanceCodes, tokens[*]
 //@   alias ntokens tokens
+//@   nogrow 1 2 3 4
 //@   ensures[C01 C16 progress] old(offset) <= nOffset && nOffset <= len(input) && len(tokens) <= len(ntokens) && len(ntokens) <= maxToken + 1 && cap(ntokens) == cap(tokens)
 //@   ensures[C01 C10 consumed] len(ntokens) <= maxToken ==> (flush ==> nOffset == len(input)) && (!flush ==> nOffset + 8 >= len(input))
 //@   ensures[C01 pos-inv] posInv(table, historySize, processed - old(offset), nOffset, 0)
